@@ -1,87 +1,477 @@
+// C12: OpenAPI export is a valid document that carries every type and endpoint.
+//
+//	gen.go     abstract REST applications (seeded), rendered to Sysl text
+//	real.go    real parser -> real exporters (openapi3 + swagger, json + yaml) -> real importers; projections to Gallina
+//	oracle.go  model-independent oracle: well-formed / complete / round trip
+//	main.go    streams, shrinking, case files (Export/Run.v), replay
 package main
 
 import (
+	"encoding/json"
 	"fmt"
-	"io"
 	"os"
+	"regexp"
+	"sort"
+	"strings"
+	"sync"
+	"time"
 
-	"github.com/anz-bank/sysl/pkg/exporter"
-	"github.com/anz-bank/sysl/pkg/importer"
-	"github.com/anz-bank/sysl/pkg/parse"
-	"github.com/anz-bank/sysl/pkg/sysl"
-	"github.com/anz-bank/sysl/pkg/syslutil"
-	"github.com/anz-bank/sysl/pkg/syslwrapper"
-	"github.com/sirupsen/logrus"
-	"github.com/spf13/afero"
+	"verifharness/common"
 )
 
-var quiet = func() *logrus.Logger { l := logrus.New(); l.SetOutput(io.Discard); return l }()
-
-func parseModel(text string) (*sysl.Module, error) {
-	fs := afero.NewMemMapFs()
-	afero.WriteFile(fs, "m.sysl", []byte(text), 0o644)
-	return parse.NewParser().ParseFromFs("m.sysl", fs)
+type options struct {
+	arrai bool // also re-import the OpenAPI 3 document through importer.Factory (arr.ai importer; seconds per call)
+	coq   bool // produce a Gallina case
 }
 
-func export3(app *sysl.Application, mode string) ([]byte, error) {
-	mod := &sysl.Module{Apps: map[string]*sysl.Application{syslutil.GetAppName(app.Name): app}}
-	mapper := syslwrapper.MakeAppMapper(mod)
-	mapper.IndexTypes()
-	simple, err := mapper.Map()
-	if err != nil {
-		return nil, err
-	}
-	ex := exporter.MakeOpenAPI3Exporter(simple, quiet)
-	if err := ex.Export(); err != nil {
-		return nil, err
-	}
-	return ex.SerializeOutput(syslutil.GetAppName(app.Name), mode)
+type verdict struct {
+	Rt2Skipped bool
+	GaveUp     bool
+	App        aApp
+	Findings   []finding
+	Term       string // Gallina case ("" if none)
+	Skipped    string // why there is no Gallina case
+	ParseErr   string
+	Out3       string
+	Out2       string
+	Reimp3     string
+	Reimp2     string
 }
 
-func export2(app *sysl.Application, mode string) ([]byte, error) {
-	ex := exporter.MakeSwaggerExporter(app, quiet)
-	if err := ex.GenerateSwagger(); err != nil {
-		return nil, err
+var noSwaggerTypeRE = regexp.MustCompile(`^none of the Swagger Types match for (sequence|set):`)
+
+func exportClass(o exportOut) string {
+	if m := noSwaggerTypeRE.FindStringSubmatch(o.Err); m != nil {
+		return "error:collection-typed-parameter"
 	}
-	return ex.SerializeOutput(mode)
+	if o.Panic != "" {
+		return "panic:" + errClass(fmt.Errorf("%s", o.Panic))
+	}
+	return "error:" + errClass(fmt.Errorf("%s", o.Err))
 }
 
-func reimport(format string, text string) (string, error) {
-	imp, err := importer.Factory("/gen/spec.yaml", false, format, []byte(text), quiet)
-	if err != nil {
-		return "", err
+func judgeApp(a aApp, opt options) (v verdict) {
+	v.App = a
+	text := render([]aApp{a})
+	m, perr := compile(text)
+	if perr != "" {
+		v.ParseErr = perr
+		v.Findings = append(v.Findings, finding{"harness:generated-text-does-not-compile", perr})
+		return v
 	}
-	imp, err = imp.Configure(&importer.ImporterArg{AppName: "App", PackageName: ""})
-	if err != nil {
-		return "", err
+	app := m.Apps[a.Name]
+	if app == nil {
+		v.ParseErr = "application not found in the compiled module"
+		v.Findings = append(v.Findings, finding{"harness:generated-text-does-not-compile", v.ParseErr})
+		return v
 	}
-	return imp.Load(text)
+
+	// ---- OpenAPI 3
+	j3 := &judge{fmtName: "oas3"}
+	oj, oy := runExport3(app, "json"), runExport3(app, "yaml")
+	v.Out3 = string(oy.Bytes)
+	if oj.Err != "" || oj.Panic != "" || oy.Err != "" || oy.Panic != "" {
+		bad := oj
+		if oj.Err == "" && oj.Panic == "" {
+			bad = oy
+		}
+		j3.fail("export-fails:"+exportClass(bad), "export -f openapi3 fails: %s%s", bad.Err, bad.Panic)
+	} else {
+		if doc := decodeBoth(j3, oj.Bytes, oy.Bytes); doc != nil {
+			wellFormed3(j3, oj.Bytes)
+			ownRules3(j3, doc)
+			j3.checkTypes(a, asMap(asMap(doc["components"])["schemas"]), "#/components/schemas/")
+			j3.checkEndpoints(a, doc, "#/components/schemas/")
+		}
+		if opt.arrai {
+			// importer.Factory("openapi3") is the arr.ai importer
+			r := runImport("openapi3", false, string(oy.Bytes))
+			v.Reimp3 = r.Text
+			switch {
+			case r.Panic != "":
+				j3.fail("roundtrip:import-panics", "re-import of the exported document panics: %s", r.Panic)
+			case r.Err != "":
+				j3.fail("roundtrip:import-fails:"+errClass(fmt.Errorf("%s", r.Err)), "re-import of the exported document fails: %s", firstLine(r.Err))
+			default:
+				m2, e2 := compile(r.Text)
+				if e2 != "" {
+					j3.fail("roundtrip:does-not-compile", "the re-imported text does not compile: %s", firstLine(e2))
+				} else if ra := m2.Apps["Reimported"]; ra == nil {
+					j3.fail("roundtrip:no-app", "the re-imported module has no application")
+				} else {
+					j3.checkRoundTrip(a, ra)
+				}
+			}
+		}
+	}
+	v.Findings = append(v.Findings, j3.out...)
+	v.GaveUp = j3.validatorGaveUp
+	if opt.coq {
+		v.Term, v.Skipped = caseTerm(app, oj)
+	}
+
+	// ---- Swagger 2
+	j2 := &judge{fmtName: "swagger"}
+	sj, sy := runExport2(app, "json"), runExport2(app, "yaml")
+	v.Out2 = string(sy.Bytes)
+	if sj.Err != "" || sj.Panic != "" || sy.Err != "" || sy.Panic != "" {
+		bad := sj
+		if sj.Err == "" && sj.Panic == "" {
+			bad = sy
+		}
+		j2.fail("export-fails:"+exportClass(bad), "export -f swagger fails: %s%s", bad.Err, bad.Panic)
+	} else {
+		if doc := decodeBoth(j2, sj.Bytes, sy.Bytes); doc != nil {
+			wellFormed2(j2, sj.Bytes, doc)
+			j2.checkTypes(a, asMap(doc["definitions"]), "#/definitions/")
+			j2.checkEndpoints(a, doc, "#/definitions/")
+		}
+		// the round trip is judged only for documents that passed the clauses above: what an incomplete document
+		// loses cannot come back
+		if len(j2.out) == 0 {
+			r := runImport("swagger", false, string(sy.Bytes))
+			v.Reimp2 = r.Text
+			switch {
+			case r.Panic != "":
+				j2.fail("roundtrip:import-panics", "re-import of the exported document panics: %s", r.Panic)
+			case r.Err != "":
+				j2.fail("roundtrip:import-fails:"+errClass(fmt.Errorf("%s", r.Err)), "re-import of the exported document fails: %s", firstLine(r.Err))
+			default:
+				m2, e2 := compile(r.Text)
+				if e2 != "" {
+					j2.fail("roundtrip:does-not-compile", "the re-imported text does not compile: %s", firstLine(e2))
+				} else if ra := m2.Apps["Reimported"]; ra == nil {
+					j2.fail("roundtrip:no-app", "the re-imported module has no application")
+				} else {
+					j2.checkRoundTrip(a, ra)
+				}
+			}
+		} else {
+			v.Rt2Skipped = true
+		}
+	}
+	v.Findings = append(v.Findings, j2.out...)
+	return v
 }
+
+func firstLine(s string) string {
+	if i := strings.IndexByte(s, '\n'); i >= 0 {
+		s = s[:i]
+	}
+	if len(s) > 200 {
+		s = s[:200]
+	}
+	return s
+}
+
+func hasKey(v verdict, key string) bool {
+	for _, f := range v.Findings {
+		if f.Key == key {
+			return true
+		}
+	}
+	return false
+}
+
+// ---------------------------------------------------------------- shrinking (greedy, bounded)
+
+func refsType(t aType, name string) bool {
+	if t.Kind == "ref" && t.Ref == name {
+		return true
+	}
+	return t.Elem != nil && refsType(*t.Elem, name)
+}
+
+func typeUsed(a aApp, name string, exceptType int) bool {
+	for i, td := range a.Types {
+		if i == exceptType {
+			continue
+		}
+		for _, f := range td.Fields {
+			if refsType(f.T, name) {
+				return true
+			}
+		}
+		if td.Alias != nil && refsType(*td.Alias, name) {
+			return true
+		}
+	}
+	for _, ep := range a.Endpoints {
+		for _, p := range ep.Params {
+			if refsType(p.T, name) {
+				return true
+			}
+		}
+		for _, r := range ep.Rets {
+			if r.T != nil && refsType(*r.T, name) {
+				return true
+			}
+		}
+	}
+	return false
+}
+
+func cloneApp(a aApp) aApp {
+	b, _ := json.Marshal(a)
+	var c aApp
+	json.Unmarshal(b, &c)
+	return c
+}
+
+func shrink(a aApp, key string, budget int) aApp {
+	still := func(c aApp) bool {
+		if budget <= 0 {
+			return false
+		}
+		budget--
+		return hasKey(judgeApp(c, options{}), key)
+	}
+	for changed := true; changed && budget > 0; {
+		changed = false
+		for i := len(a.Endpoints) - 1; i >= 0; i-- {
+			c := cloneApp(a)
+			c.Endpoints = append(c.Endpoints[:i], c.Endpoints[i+1:]...)
+			if still(c) {
+				a, changed = c, true
+			}
+		}
+		for i := len(a.Types) - 1; i >= 0; i-- {
+			if typeUsed(a, a.Types[i].Name, i) {
+				continue
+			}
+			c := cloneApp(a)
+			c.Types = append(c.Types[:i], c.Types[i+1:]...)
+			if still(c) {
+				a, changed = c, true
+			}
+		}
+		for e := range a.Endpoints {
+			for i := len(a.Endpoints[e].Params) - 1; i >= 0; i-- {
+				if a.Endpoints[e].Params[i].In == "path" {
+					continue
+				}
+				c := cloneApp(a)
+				c.Endpoints[e].Params = append(c.Endpoints[e].Params[:i], c.Endpoints[e].Params[i+1:]...)
+				if still(c) {
+					a, changed = c, true
+				}
+			}
+			for i := len(a.Endpoints[e].Rets) - 1; i >= 0; i-- {
+				c := cloneApp(a)
+				c.Endpoints[e].Rets = append(c.Endpoints[e].Rets[:i], c.Endpoints[e].Rets[i+1:]...)
+				if still(c) {
+					a, changed = c, true
+				}
+			}
+		}
+		for t := range a.Types {
+			for i := len(a.Types[t].Fields) - 1; i >= 0; i-- {
+				c := cloneApp(a)
+				c.Types[t].Fields = append(c.Types[t].Fields[:i], c.Types[t].Fields[i+1:]...)
+				if still(c) {
+					a, changed = c, true
+				}
+			}
+		}
+	}
+	return a
+}
+
+// keys of known-findings.json for this property (exact, or prefix ending in *)
+func knownKeys() func(string) bool {
+	var entries []struct{ Status, Property, Key string }
+	if b, err := os.ReadFile(os.Getenv("VERIF_DIR") + "/known-findings.json"); err == nil {
+		json.Unmarshal(b, &entries)
+	}
+	return func(k string) bool {
+		for _, e := range entries {
+			if e.Property == "C12" && e.Status == "known" && (e.Key == k || strings.HasSuffix(e.Key, "*") && strings.HasPrefix(k, strings.TrimSuffix(e.Key, "*"))) {
+				return true
+			}
+		}
+		return false
+	}
+}
+
+// ---------------------------------------------------------------- main
+
+type replayT struct {
+	Kind string `json:"kind"`
+	App  aApp   `json:"app"`
+	Sysl string `json:"sysl"`
+}
+
+const caseHeader = `From Coq Require Import String List NArith ZArith Bool.
+Import ListNotations.
+Require Import Verif.Export.OasTypes Verif.Export.OasExport Verif.Export.OasCurrent Verif.Export.Run Verif.Base.Harness.
+Local Open Scope string_scope. Local Open Scope N_scope.`
+
+const caseFooter = `Definition M := Eval vm_compute in mismatches c12_ok cases.
+Print M.`
 
 func main() {
-	b, _ := os.ReadFile(os.Args[1])
-	m, err := parseModel(string(b))
-	if err != nil {
-		fmt.Println("PARSE", err)
+	realOut := os.Stdout
+	if dn, err := os.OpenFile(os.DevNull, os.O_WRONLY, 0); err == nil {
+		os.Stdout = dn
+		os.Stderr = dn
+	}
+	if f := os.Getenv("C12_PROBE"); f != "" { // development aid: export and re-import one Sysl file, print everything
+		b, _ := os.ReadFile(f)
+		m, perr := compile(string(b))
+		fmt.Fprintln(realOut, "parse:", perr)
+		if m != nil {
+			for n, app := range m.Apps {
+				o3 := runExport3(app, "yaml")
+				fmt.Fprintf(realOut, "==== %s openapi3 err=%q panic=%q\n%s\n", n, o3.Err, o3.Panic, o3.Bytes)
+				jj := &judge{fmtName: "oas3"}
+				wellFormed3(jj, runExport3(app, "json").Bytes)
+				fmt.Fprintf(realOut, "---- well-formed? %v\n", jj.out)
+				r := runImport("openapi3", false, string(o3.Bytes))
+				fmt.Fprintf(realOut, "---- re-import err=%q panic=%q\n%s\n%s\n", r.Err, r.Panic, r.Text, r.Stack)
+				o2 := runExport2(app, "yaml")
+				fmt.Fprintf(realOut, "==== %s swagger err=%q panic=%q\n%s\n", n, o2.Err, o2.Panic, o2.Bytes)
+				r = runImport("swagger", false, string(o2.Bytes))
+				fmt.Fprintf(realOut, "---- re-import err=%q panic=%q\n%s\n", r.Err, r.Panic, r.Text)
+			}
+		}
 		return
 	}
-	for name, app := range m.Apps {
-		fmt.Println("=== app", name)
-		o3, err := export3(app, "yaml")
-		fmt.Println("--- openapi3 err=", err)
-		fmt.Println(string(o3))
-		if len(os.Args) > 2 {
-			t, err := reimport("openapi3", string(o3))
-			fmt.Println("--- reimport3 err=", err)
-			fmt.Println(t)
+	c := common.Setup("C12")
+	defer c.Finish()
+	c.Res.Rule = "one case = one generated REST-style application (1-7 types: tuples with 0-9 primitive / optional / sequence / set / reference fields incl. self and mutual references, enums, aliases; 1-5 endpoints with path / query / header / body parameters and 0-3 typed returns; `sysl` style as hand-written, `imported` style with name=\"..\" / ~required attributes and numeric return codes), rendered to Sysl text, compiled by the real parser and exported by the real exporters as openapi3 and swagger, each as json and yaml, then re-imported; distinct = distinct abstract application; non-trivial = at least one tuple type with a field and one endpoint"
+
+	if c.Replay != "" {
+		var rp replayT
+		if err := common.LoadReplay(c.Replay, &rp); err != nil {
+			fmt.Fprintln(realOut, "cannot read replay:", err)
+			os.Exit(3)
 		}
-		o2, err := export2(app, "yaml")
-		fmt.Println("--- swagger err=", err)
-		fmt.Println(string(o2))
-		if len(os.Args) > 2 {
-			t, err := reimport("swagger", string(o2))
-			fmt.Println("--- reimport2 err=", err)
-			fmt.Println(t)
+		v := judgeApp(rp.App, options{arrai: true, coq: true})
+		c.Count("replay", true)
+		fmt.Fprintf(realOut, "---- Sysl text\n%s\n---- export -f openapi3 (yaml)\n%s\n---- re-imported (arr.ai importer)\n%s\n---- export -f swagger (yaml)\n%s\n---- re-imported\n%s\n", render([]aApp{rp.App}), v.Out3, v.Reimp3, v.Out2, v.Reimp2)
+		for _, f := range v.Findings {
+			fmt.Fprintln(realOut, "FAIL", f.Key, f.What)
+			c.Fail(f.Key, f.What, rp)
+		}
+		return
+	}
+
+	type job struct {
+		a   aApp
+		opt options
+		src string
+	}
+	var jobs []job
+	for i, a := range corpus() {
+		jobs = append(jobs, job{a, options{arrai: c.Thorough() || i < 2, coq: true}, "corpus"})
+	}
+	n, nArrai := 260, 1
+	if c.Thorough() {
+		n, nArrai = 4000, 28
+	}
+	if c.Search {
+		n *= 3
+	}
+	g := &gen{r: c.Rng}
+	appNames := []string{"Shop", "Zoo", "Api", "Ns :: Deep"}
+	for i := 0; i < n; i++ {
+		style := "sysl"
+		if i%3 == 2 {
+			style = "imported"
+		}
+		a := g.app(appNames[g.r.Intn(3)], style, i%4 == 0)
+		jobs = append(jobs, job{a, options{arrai: i < nArrai, coq: true}, style})
+	}
+
+	results := make([]verdict, len(jobs))
+	var wg sync.WaitGroup
+	sem := make(chan struct{}, 8)
+	t0 := time.Now()
+	for i := range jobs {
+		wg.Add(1)
+		sem <- struct{}{}
+		go func(i int) {
+			defer wg.Done()
+			defer func() { <-sem }()
+			results[i] = judgeApp(jobs[i].a, jobs[i].opt)
+		}(i)
+	}
+	wg.Wait()
+	c.Res.Notes = append(c.Res.Notes, fmt.Sprintf("%d applications judged in %.1fs", len(jobs), time.Since(t0).Seconds()))
+
+	cases := c.NewCases("C12", caseHeader, "c12_case", caseFooter, 40)
+	shrunk := map[string]bool{}
+	known := knownKeys()
+	for i, v := range results {
+		a := jobs[i].a
+		b, _ := json.Marshal(a)
+		nontrivial := false
+		for _, td := range a.Types {
+			nontrivial = nontrivial || (td.Kind == "tuple" && len(td.Fields) > 0)
+		}
+		c.Count(string(b), nontrivial && len(a.Endpoints) > 0)
+		c.Hist("stream:" + jobs[i].src)
+		c.HistN("types", len(a.Types))
+		c.HistN("endpoints", len(a.Endpoints))
+		for _, td := range a.Types {
+			c.Hist("type:" + td.Kind)
+			for _, f := range td.Fields {
+				c.Hist("field:" + tyDesc(f.T))
+			}
+			if len(td.Fields) >= 3 {
+				c.Hist("tuple-with>=3-fields")
+			}
+		}
+		for _, ep := range a.Endpoints {
+			c.Hist("method:" + ep.Method)
+			for _, p := range ep.Params {
+				c.Hist("param:" + p.In)
+			}
+			if len(ep.Params) >= 3 {
+				c.Hist("endpoint-with>=3-params")
+			}
+			c.HistN("returns", len(ep.Rets))
+		}
+		if v.GaveUp {
+			c.Hist("oas3:validator-gave-up-on-reference-cycle")
+		}
+		if v.Rt2Skipped {
+			c.Hist("swagger:roundtrip-not-judged-incomplete-document")
+		}
+		if i < 3 {
+			c.Sample(map[string]interface{}{"sysl": render([]aApp{a})})
+		}
+		for _, f := range v.Findings {
+			rp := replayT{"app", a, render([]aApp{a})}
+			if !shrunk[f.Key] {
+				shrunk[f.Key] = true
+				budget := 40
+				if known(f.Key) || strings.Contains(f.Key, "roundtrip") && strings.HasPrefix(f.Key, "oas3:") {
+					budget = 0 // listed findings keep the generated input; arr.ai re-imports are too slow to shrink with
+				}
+				sa := shrink(a, f.Key, budget)
+				rp = replayT{"app", sa, render([]aApp{sa})}
+				for _, sf := range judgeApp(sa, options{}).Findings {
+					if sf.Key == f.Key {
+						f.What = sf.What
+					}
+				}
+			}
+			c.Fail(f.Key, f.What, rp)
+		}
+		switch {
+		case v.Term != "":
+			cases.Add(v.Term, replayT{"app", a, ""})
+			c.Hist("coq-case")
+		case v.Skipped != "":
+			c.Hist("coq-skipped:" + v.Skipped)
 		}
 	}
+	cases.Close()
+	var keys []string
+	for k := range shrunk {
+		keys = append(keys, k)
+	}
+	sort.Strings(keys)
+	c.Res.Extra["finding_keys"] = keys
 }
